@@ -24,28 +24,28 @@ type Obl struct {
 
 // Check collects the obligations of one property run.
 type Check struct {
-	Prop      string
-	P         *Prog
-	Tier      string
-	Obls      []*Obl
-	seen      map[string]int
-	Funcs     map[string]bool
-	States    int
-	Edges     int
-	Atoms     map[string]bool
-	Searches  int
-	Floors    map[string][2]int // name -> {expected, found}
-	Controls  map[string]bool
-	Notes     []string
-	Explain   string
-	Assume    []string
-	Tables    map[string]any
-	Config    string
-	graphs    map[string]*PG
-	noInline  map[string]bool
-	depth     int
-	CallSites int
-	lastLoops []int // loops that satisfied the last perIteration query
+	Prop       string
+	P          *Prog
+	Tier       string
+	Obls       []*Obl
+	seen       map[string]int
+	Funcs      map[string]bool
+	States     int
+	Edges      int
+	Atoms      map[string]bool
+	Searches   int
+	Floors     map[string][2]int // name -> {expected, found}
+	Controls   map[string]bool
+	Notes      []string
+	Explain    string
+	Assume     []string
+	Tables     map[string]any
+	Config     string
+	graphs     map[string]*PG
+	noInline   map[string]bool
+	depth      int
+	CallSites  int
+	lastLoops  []int // loops that satisfied the last perIteration query
 	loopFilter []int // if set, onlyAfterExhaustion considers only these loops
 }
 
